@@ -447,8 +447,8 @@ def run(ctx):
 
     # 2. real objects
     fams = [('creation', fam_creation()), ('node-seq', fam_node_sequences(2)),
-            ('buffers', fam_buffers(4 if thorough else 3)), ('buffer-cmds', fam_buffer_commands()),
-            ('buses', fam_buses(4 if thorough else 3)), ('bus-cmds', fam_bus_commands()),
+            ('buffers', fam_buffers(5 if thorough else 4)), ('buffer-cmds', fam_buffer_commands()),
+            ('buses', fam_buses(5 if thorough else 4)), ('bus-cmds', fam_bus_commands()),
             ('bind', fam_bind(3 if thorough else 2))]
     cases = []
     famcount = {}
@@ -461,12 +461,12 @@ def run(ctx):
     for h in fam_creation()[:40] + fam_bind(1):
         cases.append(dict(cfg=CFGW, hist=h))            # node ids across the 2^26 wrap
     rnd = random.Random(ctx.seed)
-    nrand = 4000 if thorough else 300
+    nrand = 6000 if thorough else 1000
     for _ in range(nrand):
         cases.append(dict(cfg=rnd.choice([CFG0, CFG1, CFGW, CFGT]), hist=random_history(rnd, rnd.randint(8, 40))))
     traces = run_cases(ctx, cases, 'nrt')
     # RT mode: same objects on the UDP interface (send captured, nothing leaves the process)
-    step = 1 if thorough else 7
+    step = 1 if thorough else 4
     rt_cases = cases[::step]
     rt_traces = run_cases(ctx, rt_cases, 'rt')
     judge(ctx, [(cases, traces, 'nrt'), (rt_cases, rt_traces, 'rt')])
@@ -485,7 +485,7 @@ def run(ctx):
                        'free; bind bodies of <= %d calls x every raise point; %d seeded random programs (8-40 calls, bind blocks '
                        'with random raise points); client ids 0 and 1, node-id wrap; NRT all, RT every %d-th. non-trivial = '
                        'addresses an object created in the history, frees something, or has a non-empty bind block'
-                       % (4 if thorough else 3, 4 if thorough else 3, 3 if thorough else 2, nrand, step))
+                       % (5 if thorough else 4, 5 if thorough else 4, 3 if thorough else 2, nrand, step))
     ctx.cov['exhaustive'] = True
     ctx.assumptions += [
         'int 0 in a completion-message slot means "no completion message" (the client encodes None as 0, as sclang does nil)',
